@@ -1,7 +1,7 @@
 #!/bin/bash
 # usage: mutant.sh <patch.diff|--sed 's/a/b/' file> -- <pid>...   : run checks against a scratch copy of /repo with the patch applied
 set -uo pipefail
-PATCH="$1"; shift
+PATCH="$(realpath "$1")"; shift
 S=$(mktemp -d /tmp/mcmc-mut-XXXXXX)
 trap 'rm -rf "$S"' EXIT
 rsync -a --exclude target --exclude .git /repo/ "$S/repo/"
